@@ -57,10 +57,20 @@ var (
 )
 
 func c13FixedSets() []*c13Fixed {
+	nameFmt := "f%d.dat"
 	mk := func(par1 bool, s, r int, sizes ...int) *c13Fixed {
 		f := &c13Fixed{par1: par1, s: s, r: r}
 		for i, n := range sizes {
-			f.files = append(f.files, ref.Protected{Name: fmt.Sprintf("f%d.dat", i), Data: expandContent(ckRandom, uint64(1000+i), n, 4)})
+			f.files = append(f.files, ref.Protected{Name: fmt.Sprintf(nameFmt, i), Data: expandContent(ckRandom, uint64(1000+i), n, 4)})
+		}
+		return f
+	}
+	// PAR1 sets with very short names: the offsets stored in the header
+	// then fall just above powers of two (0x9a, 0x114)
+	short := func(r int, names []string, sizes ...int) *c13Fixed {
+		f := &c13Fixed{par1: true, r: r}
+		for i, n := range sizes {
+			f.files = append(f.files, ref.Protected{Name: names[i], Data: expandContent(ckRandom, uint64(2000+i), n, 4)})
 		}
 		return f
 	}
@@ -70,6 +80,8 @@ func c13FixedSets() []*c13Fixed {
 		mk(false, 64, 4, 200, 64),
 		mk(true, 0, 2, 3, 17, 40),
 		mk(true, 0, 3, 30, 1),
+		short(1, []string{"a"}, 9),
+		short(2, []string{"ab", "cd", "ef"}, 5, 12, 3),
 	}
 }
 
@@ -205,6 +217,18 @@ func c13Build() {
 						}
 					}
 					add(false, c13Case{Fault: "truncate", File: name, Off: fl.off, Place: "header-" + fl.name})
+					// every bit of the numeric fields that are read before the
+					// control hash has vouched for them
+					if fl.off >= 48 {
+						for bo := 0; bo < fl.len; bo++ {
+							for bit := 0; bit < 8; bit++ {
+								if (bo == 0 || bo == fl.len-1) && (bit == 0 || bit == 7) {
+									continue
+								}
+								add(false, c13Case{Fault: "flip", File: name, Off: fl.off + bo, Bit: bit, Place: "header-" + fl.name})
+							}
+						}
+					}
 				}
 				for ei, e := range v.Entries {
 					for _, d := range []int{0, 7, 8, 16, 24, 40, 56, 57} {
